@@ -13,6 +13,8 @@ import time
 from . import framework as FW
 from .framework import EXIT_OK, EXIT_VIOLATION, EXIT_UNDECIDED, EXIT_FAULT, VERIF
 
+OUT = os.environ.get("VERIF_OUT", VERIF)
+
 
 def all_units():
     reg = importlib.import_module("contracts.registry")
@@ -32,13 +34,13 @@ def units_for(prop):
 
 
 def write_replay(prop, rec, unit, extra):
-    d = os.path.join(VERIF, "replays", prop)
+    d = os.path.join(OUT, "replays", prop)
     os.makedirs(d, exist_ok=True)
     tag = "%s__%s" % (rec["name"], abs(hash(json.dumps(rec.get("model"), sort_keys=True, default=str))) % 100000)
     path = os.path.join(d, tag + ".json")
     smt2_path = None
     if rec.get("smt2"):
-        sd = os.path.join(VERIF, "smt2")
+        sd = os.path.join(OUT, "smt2")
         os.makedirs(sd, exist_ok=True)
         smt2_path = os.path.join(sd, tag + ".smt2")
         with open(smt2_path, "w") as f:
@@ -50,7 +52,7 @@ def write_replay(prop, rec, unit, extra):
         "solver": {"backend": "z3-5.1", "verdict": "sat" if rec["status"] == "failed" else rec["status"],
                    "vc": smt2_path, "time_s": rec.get("time_s")},
         "inputs": rec.get("model"),
-        "rerun": "./check replay %s" % os.path.relpath(path, VERIF),
+        "rerun": "./check replay %s" % os.path.relpath(path, OUT),
     }
     body.update(extra)
     with open(path, "w") as f:
@@ -84,7 +86,7 @@ def native_replay(unit, rec):
 def check_property(prop, tier, seed, jobs=None, quiet=False):
     t0 = time.time()
     sel = units_for(prop)
-    evidence_path = os.path.join(VERIF, "evidence", "%s.json" % prop)
+    evidence_path = os.path.join(OUT, "evidence", "%s.json" % prop)
     os.makedirs(os.path.dirname(evidence_path), exist_ok=True)
     if not sel:
         print("no unit serves %s (not claimed)" % prop)
